@@ -633,14 +633,24 @@ class TextXVisitor(RRELVisitor):
             rule_name, root_rule = children
             rule_params = {}
 
-        if root_rule.rule_name.startswith("__asgn") or (
-            isinstance(root_rule, (Match, RuleCrossRef)) and rule_params
+        # Only Sequence and OrderedChoice honour the whitespace rule modifiers
+        # (ws, skipws) while parsing.
+        ws_params_ignored = ("ws" in rule_params or "skipws" in rule_params) and (
+            not isinstance(root_rule, (Sequence, RuleCrossRef))
+        )
+        if (
+            root_rule.rule_name.startswith("__asgn")
+            or (isinstance(root_rule, (Match, RuleCrossRef)) and rule_params)
+            or ws_params_ignored
         ):
             # If it is assignment node it must be kept because it could be
             # e.g. single assignment in the rule.
             # Also, handle a special case where rule consists only of a single
             # match or single rule reference and there are rule modifiers
             # defined.
+            # The same holds for a rule whose body is a repetition, optional,
+            # unordered group or syntactic predicate: whitespace modifiers set
+            # directly on such an expression would have no effect.
             root_rule = Sequence(
                 nodes=[root_rule], rule_name=rule_name, root=True, **rule_params
             )
